@@ -186,8 +186,9 @@ func (matrix *SparseFloat32Matrix) SLICE(rfrom, rto, cfrom, cto int) *SparseFloa
   return &m
 }
 func (matrix *SparseFloat32Matrix) AsSparseFloat32Vector() *SparseFloat32Vector {
-  if matrix.cols < matrix.colMax - matrix.colOffset ||
-    (matrix.rows < matrix.rowMax - matrix.rowOffset) {
+  // a view (fewer rows or columns than the storage block) does not own the
+  // underlying vector: collect its elements
+  if matrix.rowMax > matrix.rows || matrix.colMax > matrix.cols {
     n, m := matrix.Dims()
     v := nilSparseFloat32Vector(n*m)
     for it := matrix.ConstIterator(); it.Ok(); it.Next() {
